@@ -39,8 +39,8 @@ META = {
     "design_ref": "DESIGN.md §7 (libp2p path composition)",
 }
 SPEC = "specs/NetPath"
-MODULES = ["specs/Handshake/Handshake.tla", "specs/Firewall/Firewall.tla", "specs/Envelope/Envelope.tla",
-           "specs/Broadcast/Broadcast.tla", "specs/Retransmission/Retransmission.tla"]
+# Envelope.tla and Broadcast.tla are copies kept in specs/NetPath (their owners were still editing them)
+MODULES = ["specs/Handshake/Handshake.tla", "specs/Firewall/Firewall.tla", "specs/Retransmission/Retransmission.tla"]
 CONTROL = ["DoTick", "DoChainChange", "DoAdvHandshake", "DoFwCheckAdv", "DoGuard", "DoAdvInject", "DoNetRead", "DoProcess"]
 SESSION = ["DoStartDial", "DoHsStep", "DoSessFwI", "DoSessFwR", "DoSessEnd"]
 DATA = ["DoSendS", "DoNetRead", "DoProcess", "TrySend", "Register", "Dequeue", "CheckCtx", "FilterDup", "Invoke", "Return"]
